@@ -536,6 +536,65 @@ fn run(args: &Args, rep: &mut Report) {
         ),
     );
 
+    // what a style renders depends on the style alone, not on what was rendered just before:
+    // pairs of styles that differ by small amounts in two fields at once, written one after the
+    // other through the io::Write path and through Display on one thread (a cache keyed by a
+    // weak hash of the fields would answer the second from the first)
+    {
+        let accs = rt::par(rt::workers(), |w| {
+            let mut acc = Acc::new();
+            let n = rt::workers();
+            let base = MStyle { fg: Some(MColor::Idx(100)), bg: Some(MColor::Idx(100)), ul: Some(MColor::Idx(100)), effects: 0b0100_0000_0101 };
+            let shift = |c: Option<MColor>, d: i32| match c {
+                Some(MColor::Idx(i)) => Some(MColor::Idx((i as i32 + d).clamp(0, 255) as u8)),
+                c => c,
+            };
+            let mut idx = 0usize;
+            for pair in 0..4u8 {
+                for d1 in -40i32..=40 {
+                    for d2 in -100i32..=100 {
+                        idx += 1;
+                        if idx % n != w {
+                            continue;
+                        }
+                        let mut b = base;
+                        match pair {
+                            0 => { b.fg = shift(b.fg, d1); b.bg = shift(b.bg, d2); }
+                            1 => { b.bg = shift(b.bg, d1); b.ul = shift(b.ul, d2); }
+                            2 => { b.fg = shift(b.fg, d1); b.ul = shift(b.ul, d2); }
+                            _ => { b.effects = ((b.effects as i32 + d1).clamp(0, 4095)) as u16; b.fg = shift(b.fg, d2); }
+                        }
+                        if b == base {
+                            continue;
+                        }
+                        let (sa, sb) = (to_style(base), to_style(b));
+                        for (x, y) in [(sa, sb), (sb, sa)] {
+                            acc.eval();
+                            let mut v: Vec<u8> = vec![];
+                            let r = x.write_to(&mut v).and_then(|_| y.write_to(&mut v)).and_then(|_| x.write_reset_to(&mut v)).and_then(|_| y.write_reset_to(&mut v));
+                            let shown = format!("{x}{y}{x:#}{y:#}");
+                            let again = format!("{}{}", x.render(), y.render());
+                            if r.is_err() || v != shown.as_bytes() || !shown.starts_with(&again) {
+                                acc.fail("consecutive-pairs", json!({"first": sgr::from_style(x), "second": sgr::from_style(y)}), format!("[{}] then [{}] written one after the other give {} through write_to and {} through Display", sgr::from_style(x).describe(), sgr::from_style(y).describe(), esc(&v), esc(shown.as_bytes())));
+                                return acc;
+                            }
+                            // each of them alone is judged by the other sub-checks; here also the
+                            // second one's own interpretation, after the first was rendered
+                            if let Err(m) = check_style(sgr::from_style(y)) {
+                                acc.fail("consecutive-pairs", json!({"first": sgr::from_style(x), "second": sgr::from_style(y)}), format!("after rendering [{}]: {m}", sgr::from_style(x).describe()));
+                                return acc;
+                            }
+                            acc.nontrivial_distinct();
+                        }
+                    }
+                }
+            }
+            acc.sample(|| json!({"first": base.describe(), "second": "the same with two fields shifted by (d1, d2), d1 in -40..=40, d2 in -100..=100"}));
+            acc
+        });
+        rep.add("consecutive-pairs", true, "a base style and every style that differs from it by (d1, d2) in two fields at once - (fg, bg), (bg, underline), (fg, underline), (effects, fg); d1 in -40..=40, d2 in -100..=100 - rendered one after the other on one thread, in both orders, through write_to / write_reset_to and through Display / render()", accs);
+    }
+
     // format grid
     rep.add(
         "format-grid",
@@ -558,7 +617,20 @@ fn run(args: &Args, rep: &mut Report) {
     );
 }
 
-fn replay(_sub: &str, case: &Value) -> Result<(), String> {
+fn replay(sub: &str, case: &Value) -> Result<(), String> {
+    if sub == "consecutive-pairs" {
+        let a: MStyle = serde_json::from_value(case["first"].clone()).map_err(|e| format!("bad case: {e}"))?;
+        let b: MStyle = serde_json::from_value(case["second"].clone()).map_err(|e| format!("bad case: {e}"))?;
+        let (x, y) = (to_style(a), to_style(b));
+        let mut v: Vec<u8> = vec![];
+        x.write_to(&mut v).and_then(|_| y.write_to(&mut v)).map_err(|e| e.to_string())?;
+        let shown = format!("{x}{y}");
+        if v != shown.as_bytes() {
+            return Err(format!("[{}] then [{}]: write_to gives {}, Display {}", a.describe(), b.describe(), esc(&v), esc(shown.as_bytes())));
+        }
+        check_style(a)?;
+        return check_style(b);
+    }
     let m: MStyle = serde_json::from_value(case.clone()).map_err(|e| format!("bad case: {e}"))?;
     check_all(m)
 }
